@@ -62,9 +62,13 @@ BigKeys == {"a", "b", "c", "d", "e", "f", "g", "h", "i", "j"}
 Big(n, ks) == [allOf |-> [i \in 1..n |-> [properties |-> [k \in ks |-> Leaf(i)]]]]
 BigTrees == {Big(10, {"a", "b", "c", "d", "e", "f", "g"}), Big(13, BigKeys),
              [defs |-> [k \in {"a", "b", "c", "d"} |-> [anyOf |-> [i \in 1..4 |-> [properties |-> [x \in BigKeys |-> [not |-> Leaf(i)]] @@ [y |-> Leaf(i + 1)]]]]]]}
+\* trees whose nodes are schema RESOURCES ($id): a clone repeats the ids, and the parent holding both still resolves
+IdAt(path) == [id |-> [u |-> URI("http", "h1", TRUE, path), f |-> ""]]
+IdTrees == {[properties |-> [a |-> IdAt(<<"x.json">>) @@ [minLength |-> 1]]], [allOf |-> <<IdAt(<<"x.json">>) @@ Leaf(1), Leaf(2)>>],
+            IdAt(<<"root.json">>) @@ [items |-> Leaf(1)], [defs |-> [k |-> IdAt(<<"d", "k.json">>) @@ [not |-> IdAt(<<"d", "n.json">>) @@ Leaf(3)]]]}
 D3 == {OneUnder(k1, OneUnder(k2, OneUnder(k3, Leaf(1)))) : k1 \in {"items", "allOf", "properties", "not"}, k2 \in AllKW, k3 \in {"if", "oneOf", "depSchemas", "defs"}}
 D3all == {OneUnder(k1, OneUnder(k2, OneUnder(k3, Leaf(1)))) : k1 \in AllKW, k2 \in AllKW, k3 \in {"if", "oneOf", "depSchemas", "defs", "items", "patternProperties"}}
-Trees == IF K >= 3 THEN UNION {D1, D2, Wide, Empties, TrueKids, BushyTrees, AnchorTrees, BigTrees, D3, D3all} ELSE IF K >= 2 THEN UNION {D1, D2, Wide, Empties, TrueKids, BushyTrees, AnchorTrees, BigTrees, D3} ELSE UNION {D1, D2, Wide, Empties, TrueKids, BushyTrees, AnchorTrees, BigTrees}
+Trees == IF K >= 3 THEN UNION {D1, D2, Wide, Empties, TrueKids, BushyTrees, AnchorTrees, IdTrees, BigTrees, D3, D3all} ELSE IF K >= 2 THEN UNION {D1, D2, Wide, Empties, TrueKids, BushyTrees, AnchorTrees, IdTrees, BigTrees, D3} ELSE UNION {D1, D2, Wide, Empties, TrueKids, BushyTrees, AnchorTrees, IdTrees, BigTrees}
 
 Init == cs \in Trees /\ phase = "new"
 Next == phase = "new" /\ phase' = "done" /\ cs' = cs
